@@ -59,7 +59,7 @@ class BuiltinMixin:
                 return r
         if isinstance(v.ty, TMap):
             f = self.UF('map_size_' + _san(v.ty.key), v.ty.sort(), z3.IntSort())
-            st.assume(f(v.t) >= 0)
+            self.fact(f(v.t) >= 0)
             return V(INT, f(v.t))
         raise Unsupported(f'len of {v.ty}')
 
@@ -166,6 +166,12 @@ class BuiltinMixin:
         st.assume(z3.ForAll([k], z3.Implies(z3.And(k >= 0, k < n), out.t[k] == elt.t), patterns=[out.t[k]]))
         return out
 
+    def b_type(self, args, kw, st, exits, line):
+        v = args[0]
+        if isinstance(v.ty, TRef):
+            return V(CLSV, self.typeof(v.t))
+        return V(TObj('type'), z3.Const('type_of_' + _san(v.ty.key), TObj('type').sort()))
+
     def b_getattr(self, args, kw, st, exits, line):
         raise Unsupported('getattr')
 
@@ -219,6 +225,9 @@ class BuiltinMixin:
             fr = FuncRef(c.module.relpath, f'{c.qualname}.{name}', m, cls=c)
             yield from self.call_func(fr, inst, args, kw, st, exits, e)
             return
+        if isinstance(ty, TObj):
+            yield from self.call_external(f'<{ty.name}>.{name}', [recv] + list(args), kw, st, exits, e)
+            return
         if isinstance(ty, TPy) and ty.kind == 'emptydict':
             raise Unsupported('method on untyped {}: declare the local in the sidecar')
         raise Unsupported(f'method {name} on {ty}')
@@ -248,7 +257,7 @@ class BuiltinMixin:
             st.assume(z3.Length(out.t) <= mx.t + 1)
             return out
         out = V(TSeq(STR), self.f_split()(r.t, args[0].t))
-        st.assume(z3.Length(out.t) >= 1)
+        self.fact(z3.Length(out.t) >= 1, 'str.split(sep) returns at least one piece (CPython docs)')
         return out
 
     def sm_rsplit(self, r, args, kw, st, exits, line):
@@ -270,6 +279,8 @@ class BuiltinMixin:
             return mk_str('')
         if s.ty != TSeq(STR):
             raise Unsupported(f'join of {s.ty}')
+        if _is_empty(s.t):
+            return mk_str('')
         return V(STR, self.f_join()(r.t, s.t))
 
     def sm_strip(self, r, args, kw, st, exits, line):
@@ -338,8 +349,8 @@ class BuiltinMixin:
     def bm_join(self, r, args, kw, st, exits, line):
         s = self.seq_of(args[0], st)
         f = self.UF('bytes_join', BYTES.sort(), z3.SeqSort(BYTES.sort()), BYTES.sort())
-        if isinstance(s.ty, TSeq) and s.ty.elem is NONE:
-            return V(BYTES, z3.Empty(BYTES.sort()))
+        if isinstance(s.ty, TSeq) and s.ty.elem is NONE or _is_empty(s.t):
+            return V(BYTES, z3.Empty(BYTES.sort()))     # sep.join([]) is empty (CPython)
         return V(BYTES, f(r.t, s.t))
 
     # --- list
@@ -462,6 +473,24 @@ class BuiltinMixin:
             else:
                 yield st, V(ty.vopt, cell)
             return
+        if name in ('values', 'keys', 'items'):
+            ety = {'values': ty.v, 'keys': ty.k, 'items': TTuple([ty.k, ty.v])}[name]
+            f = self.UF(f'map_{name}_' + _san(ty.key), ty.sort(), z3.SeqSort(ety.sort()))
+            out = V(TSeq(ety), f(recv.t))
+            size = self.UF('map_size_' + _san(ty.key), ty.sort(), z3.IntSort())
+            self.fact(z3.Length(out.t) == size(recv.t))
+            yield st, out
+            return
+        if name == 'update':
+            other = args[0]
+            if other.ty != ty:
+                raise Unsupported(f'dict.update with {other.ty}')
+            k = z3.Const(fresh_name('uk'), ty.k.sort())
+            nv = V(ty, z3.Lambda([k], z3.If(ty.vopt.is_some(z3.Select(other.t, k)), z3.Select(other.t, k),
+                                            z3.Select(recv.t, k))))
+            for s2 in self.assign(recv_expr, nv, st, exits):
+                yield s2, NONE_V
+            return
         if name == 'setdefault':
             raise Unsupported('dict.setdefault')
         raise Unsupported(f'dict.{name}')
@@ -491,3 +520,11 @@ def _join(a, b):
 
 def _san(k):
     return ''.join(c if c.isalnum() else '_' for c in k)
+
+
+def _is_empty(t):
+    try:
+        t = z3.simplify(t)
+        return z3.is_app(t) and t.decl().kind() == z3.Z3_OP_SEQ_EMPTY
+    except Exception:
+        return False
